@@ -20,13 +20,21 @@ MAX_DEPTH = 7
 LOOP_ROUNDS = 3
 
 
+class _NoConst:
+    def __repr__(self):
+        return "<noconst>"
+
+
+NOCONST = _NoConst()
+
+
 class V(tuple):
-    """(tag, ref)"""
+    """(tag, ref, const): domain tag, heap address or None, known constant value or NOCONST."""
 
     __slots__ = ()
 
-    def __new__(cls, tag, ref=None):
-        return tuple.__new__(cls, (tag, ref))
+    def __new__(cls, tag, ref=None, const=NOCONST):
+        return tuple.__new__(cls, (tag, ref, const))
 
     @property
     def tag(self):
@@ -35,6 +43,10 @@ class V(tuple):
     @property
     def ref(self):
         return self[1]
+
+    @property
+    def const(self):
+        return self[2]
 
 
 class Obj:
@@ -206,10 +218,11 @@ class Interp:
         self.steps = 0
         self.closures: dict[int, dict] = {}
         self.warnings = []
+        self.iter_ctx = []  # indices of the enclosing unrolled loop iterations (part of allocation addresses)
 
     # ------------------------------------------------------------------ heap
     def alloc(self, st: State, kind, node, slots=None, elem=None, meta=None) -> int:
-        ctx = tuple(id(fr.func) for fr in self.stack[-3:])
+        ctx = tuple(id(fr.func) for fr in self.stack[-3:]) + tuple(self.iter_ctx)
         addr = (id(node), ctx, kind)
         st.put(addr, Obj(kind, slots or {}, elem, meta))
         return addr
@@ -240,7 +253,7 @@ class Interp:
             return a
         tag = self.d.join(a.tag, b.tag)
         if a.ref == b.ref:
-            return V(tag, a.ref)
+            return V(tag, a.ref, a.const if a.const == b.const and type(a.const) is type(b.const) else NOCONST)
         if a.ref is None or b.ref is None:
             # scalar joined with container: keep the container (its slots become maybe-absent via tag)
             return V(tag, a.ref if a.ref is not None else b.ref)
@@ -455,6 +468,15 @@ class Interp:
         return st
 
     def s_AugAssign(self, s, st):
+        t = s.target
+        if isinstance(t, ast.Subscript) and ((isinstance(t.slice, ast.Slice) and t.slice.lower is None and t.slice.upper is None and t.slice.step is None) or (isinstance(t.slice, ast.Constant) and t.slice.value is Ellipsis)):
+            # x[:] op= y is an in-place update of the whole array x
+            cur = self.eval(t.value, st)
+            rhs = self.eval(s.value, st)
+            self.d.on_store(self, "subscript", cur, None, rhs, s, st)
+            res = self.d.binop(self, s.op, cur, rhs, s, st)
+            self.rebind(t.value, V(res.tag, cur.ref if res.ref is None else res.ref), st)
+            return st
         cur = self.eval(s.target, st)
         rhs = self.eval(s.value, st)
         self.d.on_store(self, "aug", cur, None, rhs, s, st)
@@ -531,7 +553,19 @@ class Interp:
         return None
 
     def refine(self, test, truth, st):
-        """Domain-specific refinement of `st` under `test` == truth."""
+        """Refinement of `st` under `test` == truth (generic key-membership part + domain part)."""
+        t = test
+        tr = truth
+        while isinstance(t, ast.UnaryOp) and isinstance(t.op, ast.Not):
+            t, tr = t.operand, not tr
+        if isinstance(t, ast.Compare) and len(t.ops) == 1 and isinstance(t.ops[0], (ast.In, ast.NotIn)) and isinstance(t.comparators[0], ast.Name):
+            key = self.const_key(t.left, st)
+            present = isinstance(t.ops[0], ast.In) == tr
+            if key is not _NOKEY and not present and t.comparators[0].id in st.env:
+                o = self.obj(st, st.env[t.comparators[0].id])
+                if o is not None and o.kind == "dict" and key in o.slots:
+                    o = self.mobj(st, st.env[t.comparators[0].id])
+                    del o.slots[key]
         r = getattr(self.d, "refine", None)
         if r is not None:
             r(self, test, truth, st)
@@ -577,14 +611,16 @@ class Interp:
             cur = st
             fr = self.stack[-1]
             exit_state = None
-            for item in const_items:
+            for idx, item in enumerate(const_items):
                 info = {"break": None, "continue": None}
                 fr.loops.append(info)
+                self.iter_ctx.append(idx)
                 try:
                     self.assign(s.target, item, cur, s)
                     out = self.block(s.body, cur)
                 finally:
                     fr.loops.pop()
+                    self.iter_ctx.pop()
                 exit_state = self.join_states(exit_state, info["break"])
                 cur = self.join_states(out if not out.dead else None, info["continue"])
                 if cur is None:
@@ -736,6 +772,15 @@ class Interp:
     def rebind(self, expr, v, st):
         if isinstance(expr, ast.Name):
             st.env[expr.id] = v
+        elif isinstance(expr, ast.Attribute):
+            o = self.mobj(st, self.eval(expr.value, st))
+            if o is not None:
+                o.slots["." + expr.attr] = v
+        elif isinstance(expr, ast.Subscript):
+            o = self.mobj(st, self.eval(expr.value, st))
+            key = self.const_key(expr.slice, st)
+            if o is not None and key is not _NOKEY:
+                o.slots[key] = v
 
     def unpack_elem(self, v, i, n, node, st):
         h = getattr(self.d, "unpack", None)
@@ -771,8 +816,23 @@ class Interp:
         return _NOKEY
 
     def const_of(self, v, st):
+        if v is None:
+            return _NOKEY
+        if v.const is not NOCONST:
+            return v.const
+        o = self.obj(st, v)
+        if o is not None and o.kind == "tuple" and o.elem is None and o.slots:
+            parts = []
+            for i in range(len(o.slots)):
+                if i not in o.slots:
+                    return _NOKEY
+                c = self.const_of(o.slots[i], st)
+                if c is _NOKEY or isinstance(c, tuple):
+                    return _NOKEY
+                parts.append(c)
+            return tuple(parts)
         ck = getattr(self.d, "const_of", None)
-        if ck is None or v is None:
+        if ck is None:
             return _NOKEY
         return ck(self, v, st)
 
@@ -791,7 +851,9 @@ class Interp:
             a = ("const", id(node), depth, id(value))
             st.put(a, Obj("dict", slots))
             return V(self.d.fresh("dict", node), a)
-        if value is None or isinstance(value, (str, int, float, bool)):
+        if isinstance(value, (str, int)) and not isinstance(value, bool):
+            return V(self.d.const(value, node), None, value)
+        if value is None or isinstance(value, (float, bool)):
             return V(self.d.const(value, node))
         from .consteval import FuncRef
 
@@ -800,6 +862,22 @@ class Interp:
             st.put(a, Obj("func", meta={"func": value.func}))
             return V(self.d.fresh("func", node), a)
         return V(self.d.unknown(node))
+
+    def load_const_global(self, r, node, st):
+        """Heapified constant value of a module-level table (lists/tuples/dicts, possibly holding lambdas)."""
+        from .consteval import ConstEval, NotConstant
+
+        if not hasattr(self, "_ce"):
+            self._ce = ConstEval(self.prog)
+        b = r[3]
+        if isinstance(b.value, (ast.List, ast.Tuple, ast.Dict)) or (isinstance(b.value, ast.Call) and r[2].isupper()):
+            try:
+                val = self._ce.global_value(r[1], r[2])
+            except NotConstant:
+                return None
+            if isinstance(val, (list, tuple, dict)):
+                return self.heapify(val, node, st)
+        return None
 
     def unroll_items(self, itv, st, limit=12):
         """Elements of a fully known list/tuple value (no summary element), else None."""
@@ -814,7 +892,7 @@ class Interp:
     def const_iter(self, node, st):
         """List of V for a literal tuple/list of constants being iterated, else None."""
         if isinstance(node, (ast.Tuple, ast.List)) and node.elts and all(isinstance(e, ast.Constant) for e in node.elts):
-            return [V(self.d.const(e.value, e)) for e in node.elts]
+            return [self.e_Constant(e, st) for e in node.elts]
         return None
 
     def iter_elem(self, itv: V, node, st) -> V:
@@ -841,6 +919,8 @@ class Interp:
         return m(e, st)
 
     def e_Constant(self, e, st):
+        if isinstance(e.value, (str, int)) and not isinstance(e.value, bool):
+            return V(self.d.const(e.value, e), None, e.value)
         return V(self.d.const(e.value, e))
 
     def lookup_name(self, name, st):
@@ -1113,7 +1193,8 @@ class Interp:
             return None
         saved = dict(st.env)
         out = []
-        for item in items:
+        for idx, item in enumerate(items):
+            self.iter_ctx.append(idx)
             self.assign(g.target, item, st, e)
             sub = st.copy() if g.ifs else st
             for c in g.ifs:
@@ -1131,6 +1212,7 @@ class Interp:
                 j = self.join_states(st, sub)
                 st.store = j.store
                 st.owned = j.owned
+            self.iter_ctx.pop()
         for k in list(st.env):
             if k not in saved:
                 del st.env[k]
@@ -1296,6 +1378,11 @@ class Interp:
         return bound
 
     def call_func(self, g: Func, args, kwargs, node, st):
+        h = getattr(self.d, "intercept_call", None)
+        if h is not None:
+            r = h(self, g, args, kwargs, node, st)
+            if r is not None:
+                return r
         if self.inline_filter is not None and not self.inline_filter(g):
             return self.d.call_unknown(self, node, args, kwargs, st)
         env = st.env
